@@ -16,7 +16,7 @@ Step == obs.ev = "step"
 StepDone(d) == Step /\ obs.e = "Step" /\ obs.stepDo = d
 \* C01_ServedOnce / right service: one service call per connection, by the service of the listener it connected to
 T_C01_ServedOnceRightService == Step => (~obs.dupServed /\ ~obs.wrongService)
-T_C01_AllServed == StepDone("await_started") => obs.stepOk
+T_C01_AllServed == (StepDone("await_started") \/ StepDone("stress")) => obs.stepOk
 \* C02_Bound: per worker thread, connections in progress never exceed max_concurrent_connections
 T_C02_Bound == Step => obs.maxLivePerWorker <= obs.limit
 \* C03_NoLostWake: whenever the scenario waits for a waiting connection to be served after a release, it is
